@@ -6,6 +6,7 @@
 // Sanitizer reports and library assertions count for whichever property is being checked.
 #include "common/verif.hpp"
 #include "common/track.hpp"
+#include <limits>
 #include <frg/vector.hpp>
 #include <frg/small_vector.hpp>
 #include <frg/dyn_array.hpp>
@@ -480,6 +481,39 @@ static void run_elem_family(bool thorough) {
 	run_type<ListAdapter<E>>("list<" + e + ">", thorough ? 9 : 7, scaled(200, 5000), thorough ? 300 : 60);
 }
 
+// ------------------------------------------------------------------ equality with element types whose == is not "same bytes"
+template<typename FV, typename T>
+static void float_equality_case(const char *cname, Rng &r, long long idx) {
+	begin_case("float-eq", idx);
+	AllocState as; as.owner = cname;
+	{
+		FV a{TrackedAlloc(&as)}, b{TrackedAlloc(&as)};
+		std::vector<T> ra, rb;
+		auto gen = [&]() -> T { switch(r.below(6)) { case 0: return T(0.0); case 1: return T(-0.0); case 2: return std::numeric_limits<T>::quiet_NaN(); case 3: return T(1.5); default: return T(r.below(3)); } };
+		size_t n = r.below(6);
+		for(size_t i = 0; i < n; i++) { T v = gen(); a.push_back(v); ra.push_back(v); T w = r.chance(2, 3) ? v : gen(); if(v == T(0) && r.chance(1, 2)) w = -v; b.push_back(w); rb.push_back(w); }
+		if(r.chance(1, 4)) { T v = gen(); b.push_back(v); rb.push_back(v); }
+		bool eq = (a == b), ne = (a != b), req = (ra == rb);
+		if(eq != req || ne == eq) model_violation(cname, "eq", strf("%s of floating-point elements: a==b is %d, a!=b is %d, the reference sequence says a==b is %d (sizes %zu, %zu)", cname, (int)eq, (int)ne, (int)req, ra.size(), rb.size()));
+		bool self = (a == a), rself = (ra == ra);
+		if(self != rself) model_violation(cname, "eq", strf("%s of floating-point elements: a==a is %d, the reference sequence says %d", cname, (int)self, (int)rself));
+	}
+	expect_no_blocks(as, "after the floating-point equality case");
+	count("float_equality_cases");
+}
+static void float_equality() {
+	if(!want_mode("float-eq")) return;
+	Rng r(derive_seed("float-eq"));
+	for(long long i = opt.shard; i < (long long)scaled(2000, 40000); i += opt.nshards) {
+		switch(i % 3) { // (small_vector, dyn_array, stack and list have no operator==)
+		case 0: float_equality_case<frg::vector<double, TrackedAlloc>, double>("vector", r, i); break;
+		case 1: float_equality_case<frg::vector<float, TrackedAlloc>, float>("vector", r, i); break;
+		default: float_equality_case<frg::vector<long double, TrackedAlloc>, long double>("vector", r, i); break;
+		}
+		note_distinct(mix(hash_str("float-eq"), i));
+	}
+}
+
 int main(int argc, char **argv) {
 	parse_args(argc, argv, "containers");
 	if(opt.replay_arg.find("prop=C16") != std::string::npos) g_prop = "C16";
@@ -495,5 +529,6 @@ int main(int argc, char **argv) {
 	run_type<SmallVecAdapter<PodNZ, 2>>("small_vector<pod-nonzero-default,2>", t ? 4 : 3, scaled(100, 4000), t ? 200 : 40);
 	run_type<DynAdapter<PodNZ>>("dyn_array<pod-nonzero-default>", t ? 5 : 4, scaled(100, 4000), 40);
 	run_type<IListAdapter>("intrusive_list", t ? 6 : 5, scaled(600, 30000), t ? 300 : 60);
+	float_equality();
 	return finish();
 }
